@@ -232,6 +232,147 @@ Definition listing_gen (strict : bool) (flat_exp rel_exp : list entry) (check_no
 Definition listing_ok (c : coll) (view : nat) (obs : result (list row)) : bool :=
   listing_gen true (flat_expected c) (rel_expected c) true (c_auto_dash c) view obs.
 
+(** ** scoped and depth-limited listings: [--list <root>], [--list-depth N]
+
+    [--list <root>] shows the part of the tree below the sub-collection the
+    dotted path [root] names (path segments are binding keys, exactly as typed),
+    every name relative to it and written with a leading dot -- the same
+    bindings, each exactly once.  [--list-depth N] shows the bindings whose
+    relative path is shorter than N, and instead of descending further one row
+    per sub-collection at depth N with the number of tasks and of collections
+    bound in it (zero counts left out).  The nested format shows a row for every
+    collection it descends into as well; names below the top level (all names,
+    in a scoped listing) carry the leading dot.  JSON has no depth-limited form. *)
+Definition has_dot (s : string) : bool := match s with String "." _ => true | _ => false end.
+
+Definition tally_of (sc : coll) : list string :=
+  (match List.length (c_tasks sc) with O => [] | n => [(nat_str n ++ " tasks")%string] end) ++
+  (match List.length (c_subs sc) with O => [] | n => [(nat_str n ++ " collections")%string] end).
+
+Definition crow := (list string * list string)%type.    (* path, tallies *)
+
+(** every sub-collection below [c], with its path of binding keys *)
+Fixpoint sub_colls (c : coll) (path : list string) {struct c} : list crow :=
+  match c with
+  | Coll _ _ _ subs _ _ _ =>
+      (fix go (l : list (string * coll)) : list crow :=
+         match l with
+         | [] => []
+         | (k, sc) :: l' => (path ++ [k], tally_of sc) :: sub_colls sc (path ++ [k]) ++ go l'
+         end) subs
+  end.
+
+Definition crow_same (a b : crow) : bool :=
+  list_eqb String.eqb (fst a) (fst b) && set_eq (snd a) (snd b) &&
+  Nat.eqb (List.length (snd a)) (List.length (snd b)).
+
+Definition same_colls (expected shown : list crow) : bool :=
+  Nat.eqb (List.length expected) (List.length shown) &&
+  forallb (fun e => existsb (crow_same e) shown) expected &&
+  forallb (fun e => existsb (crow_same e) expected) shown.
+
+(** the collection rows of a nested listing, read with the same scoping rule
+    as [nested_shown] *)
+Fixpoint nested_colls (rows : list row) (cur : list string) : list crow :=
+  match rows with
+  | [] => []
+  | r :: rest =>
+      match r_task r with
+      | None =>
+          let p := firstn (r_depth r) cur ++ [strip_dot (r_name r)] in
+          (p, r_aliases r) :: nested_colls rest p
+      | Some _ => nested_colls rest cur
+      end
+  end.
+
+Definition entry_path (eb : entry * bool) : list string :=
+  let '((path, _, _, _), _) := eb in path.
+
+Definition depth_keep (dl : nat) (eb : entry * bool) : bool :=
+  match dl with O => true | _ => Nat.ltb (List.length (entry_path eb)) dl end.
+
+Definition is_task_row (r : row) : bool := match r_task r with Some _ => true | None => false end.
+
+(** [bs], [cs]: the bindings and sub-collections of the collection in focus,
+    relative to it.  [strict], [check_norm] as in [listing_gen]; [fe]
+    (attribution only): the leading dot of a truncated collection row of the
+    flat format is not judged. *)
+Definition listing_at (strict fe : bool) (bs : list (entry * bool)) (cs : list crow)
+           (check_norm ad : bool) (view : nat) (rooted : bool) (dl : nat)
+           (obs : result (list row)) : bool :=
+  match bs with
+  | [] => true                              (* nothing to list: "No tasks found" *)
+  | _ =>
+      match view, dl with
+      | S (S (S _)), S _ => true            (* json has no depth-limited form *)
+      | S (S (S _)), O => listing_gen strict (flat_of bs) (map fst bs) check_norm ad view obs
+      | _, _ =>
+          match obs with
+          | Err _ => false
+          | Ok rows0 =>
+              let rows := filter (fun r => negb (Nat.eqb (r_depth r) 1000)) rows0 in
+              let bs' := filter (depth_keep dl) bs in
+              let trows := filter is_task_row rows in
+              let crows := filter (fun r => negb (is_task_row r)) rows in
+              let same := if strict then same_entries else same_multi in
+              let tid (r : row) := match r_task r with Some i => i | None => 0 end in
+              match view with
+              | 1 =>
+                  let dots_ok :=
+                    negb rooted ||
+                    (forallb (fun r => has_dot (r_name r) && forallb has_dot (r_aliases r)) trows &&
+                     (fe || forallb (fun r => has_dot (r_name r)) crows)) in
+                  let un (s : string) := if rooted then strip_dot s else s in
+                  let sh := map (fun r => (([] : list string), un (r_name r), tid r, map un (r_aliases r))) trows in
+                  let csh := map (fun r => ([un (r_name r)], r_aliases r)) crows in
+                  let cexp :=
+                    match dl with
+                    | O => []
+                    | _ => map (fun pc : crow => ([join "." (fst pc)], snd pc))
+                               (filter (fun pc : crow => Nat.eqb (List.length (fst pc)) dl) cs)
+                    end in
+                  dots_ok && same (flat_of bs') sh && same_colls cexp csh &&
+                  (negb check_norm ||
+                   (forallb (entry_normalized ad) sh &&
+                    forallb (fun pc : crow => forallb (normalized ad) (fst pc)) csh))
+              | _ =>
+                  let want (r : row) := rooted || Nat.ltb 0 (r_depth r) in
+                  let dots_ok :=
+                    forallb (fun r => Bool.eqb (has_dot (r_name r)) (want r) &&
+                                      (negb (is_task_row r) ||
+                                       forallb (fun a => Bool.eqb (has_dot a) (want r)) (r_aliases r)))
+                            rows in
+                  let sh := nested_shown rows [] in
+                  let csh := nested_colls rows [] in
+                  let cexp :=
+                    map (fun pc : crow =>
+                           (fst pc, match dl with
+                                    | O => []
+                                    | _ => if Nat.eqb (List.length (fst pc)) dl then snd pc else []
+                                    end))
+                        (filter (fun pc : crow => match dl with
+                                                  | O => true
+                                                  | _ => Nat.leb (List.length (fst pc)) dl
+                                                  end) cs) in
+                  dots_ok && same (map fst bs') sh && same_colls cexp csh &&
+                  (negb check_norm ||
+                   (forallb (entry_normalized ad) sh &&
+                    forallb (fun pc : crow => forallb (normalized ad) (fst pc)) csh))
+              end
+          end
+      end
+  end.
+
+(** the sub-collection a dotted root names: binding keys, exactly as typed *)
+Fixpoint focus_of (c : coll) (parts : list string) : option coll :=
+  match parts with
+  | [] => Some c
+  | p :: rest => match assoc p (c_subs c) with
+                 | Some sc => focus_of sc rest
+                 | None => None
+                 end
+  end.
+
 (** ** the judgement of one case.  Trees in which bindings of one collection
     collide are outside the statement ([ns_wf], as for C17). *)
 Fixpoint all2 {A B} (f : A -> B -> bool) (l1 : list A) (l2 : list B) : bool :=
@@ -306,5 +447,20 @@ Definition spec_ok (script : item) (c : coll) (view : nat) (names : list string)
     match view with
     | O => all2 (token_ok (c_auto_dash c)) names nos
     | _ => listing_ok c view rows
+    end
+  else true.
+
+(** views with [--list <root>] and / or [--list-depth N] (N > 0) *)
+Definition spec_at (script : item) (c : coll) (view : nat) (root : option string) (dl : nat)
+           (rows : result (list row)) : bool :=
+  if script_clean script then
+    defaults_consistent c &&
+    match root with
+    | None => listing_at true false (bindings c []) (sub_colls c []) true (c_auto_dash c) view false dl rows
+    | Some r =>
+        match focus_of c (split_char "." r) with
+        | None => match rows with Err _ => true | Ok _ => false end     (* no such sub-collection: refused *)
+        | Some f => listing_at true false (bindings f []) (sub_colls f []) true (c_auto_dash c) view true dl rows
+        end
     end
   else true.
